@@ -2479,6 +2479,9 @@ protected:
      * @param opPos The current position in the xpath operation map array
      * @param scoreHolder a reference to an eMatchScore to receive
      * the result.
+     * @param firstPos The position of the first step of the location path pattern
+     * @param stopPos The position at which the pattern ends (the steps
+     * from firstPos up to, but not including, stopPos are matched)
      * @return the last matched context node
      */
     XalanNode*
@@ -2486,7 +2489,9 @@ protected:
             XPathExecutionContext&  executionContext,
             XalanNode*              context, 
             OpCodeMapPositionType   opPos,
-            eMatchScore&            scoreHolder) const;
+            eMatchScore&            scoreHolder,
+            OpCodeMapPositionType   firstPos,
+            OpCodeMapPositionType   stopPos) const;
 
     OpCodeMapPositionType
     findNodeSet(
